@@ -106,8 +106,10 @@ PoissonDistribution<RealType>::operator()(Generator& rng) -> result_type
         } while (p > 1);
         return static_cast<result_type>(k - 1);
     }
-    // Use Gaussian approximation rounded to nearest integer
-    return result_type(sample_normal_(rng) + real_type(0.5));
+    // Use Gaussian approximation rounded to nearest integer, clamping the
+    // (rare) negative samples since the result is unsigned
+    return result_type(
+        clamp_to_nonneg(sample_normal_(rng) + real_type(0.5)));
 }
 //---------------------------------------------------------------------------//
 }  // namespace celeritas
